@@ -114,29 +114,48 @@ def run(chk, replay=None):
 
     # ---- what to run ------------------------------------------------------
     jobs = []          # (label, args, stdin)
+    probe_big = True
     if replay:
         r = json.load(open(replay))["replay"]
-        if r.get("request"):
+        a = r.get("args") or []
+        if a and a[0] == "replay":                       # a corpus request
+            jobs.append(("replay", a, r.get("stdin")))
+        elif a and a[0] == "run" and r.get("scenario") is not None:   # a generated scenario
+            jobs.append(("replay", ["run", a[1], str(r["scenario"]), str(r["scenario"] + 1)], None))
+        elif r.get("request"):
             jobs.append(("replay", ["replay", str(chk.seed), "25"], r["request"] + "\n"))
-        elif "scenario" in r:
-            jobs.append(("replay", ["run", str(r.get("seed", chk.seed)), str(r["scenario"]), str(r["scenario"] + 1)], None))
+        probe_big = r.get("probe") == "big"
+        if not jobs and not probe_big:                   # a broken proof / correspondence: run everything
+            replay, probe_big = None, True
+    if replay:
+        pass
     else:
         corpus = sorted(glob.glob(os.path.join(C.ROOT, "corpus", "C02", "*.req")))
         for f in corpus:
             jobs.append(("corpus:" + os.path.basename(f), ["replay", str(chk.seed), "8"], open(f).read()))
         chk.cov["corpus_files"] = len(corpus)
-        nscen = 700 if chk.tier == "quick" else 16000
-        nshard = 4 if chk.tier == "quick" else 8
+        nscen = 3000 if chk.tier == "quick" else 200000
+        nshard = 4 if chk.tier == "quick" else 64
         step = (nscen + nshard - 1) // nshard
         for s in range(nshard):
             jobs.append(("gen", ["run", str(chk.seed), str(s * step), str(min(nscen, (s + 1) * step))], None))
         chk.cov["scenarios"] = nscen
 
-    with cf.ThreadPoolExecutor(4) as ex:
-        results = list(ex.map(lambda j: run_shard(exe, j[1], j[2]), jobs))
+    def work(j):
+        recs, deaths = run_shard(exe, j[1], j[2])
+        lean = None
+        if drv_ok and recs:
+            try:
+                lean = C.run_driver("c02_driver", ss_lines + [r[0] for r in recs])[len(ss_lines):]
+            except RuntimeError as e:
+                lean = ["bad-op driver-died %s" % str(e)[:80]] * len(recs)
+        return recs, deaths, lean
+
+    ex = cf.ThreadPoolExecutor(4)
+    results = ex.map(work, jobs)
 
     # the admissibility probe for very long genomes (C++ oracle only)
-    if not replay:
+    if probe_big:
         rc, so, se = C.run_harness(exe, ["big"], env=SAN, timeout=600)
         for ln in so.splitlines():
             if ln.startswith("G "):
@@ -154,7 +173,7 @@ def run(chk, replay=None):
     # ---- the Lean side ------------------------------------------------------
     suspects = []          # relation-only disagreements (searched further below)
     nlean_fail = 0
-    for (label, args, jstdin), (recs, deaths) in zip(jobs, results):
+    for (label, args, jstdin), (recs, deaths, lean) in zip(jobs, results):
         for d in deaths:
             req = d["request"]
             kind = san_kind(d["stderr"])
@@ -172,9 +191,6 @@ def run(chk, replay=None):
                            "seed": chk.seed, "args": args}, tags=tags)
         if not recs:
             continue
-        lean = None
-        if drv_ok:
-            lean = C.run_driver("c02_driver", ss_lines + [r[0] for r in recs])[len(ss_lines):]
         for i, (lline, o) in enumerate(recs):
             op, info = o["op"], o["info"]
             ans = lean[i] if lean is not None and i < len(lean) else None
@@ -229,6 +245,7 @@ def run(chk, replay=None):
             if i % 1499 == 0:
                 chk.sample({"request": lline[:300], "oracle": {k: o[k] for k in ("wf", "step", "valid", "exec", "why")},
                             "lean": ans})
+    ex.shutdown()
     chk.cov["lean_rejections"] = nlean_fail
     chk.cov["relation_only_disagreements"] = len(suspects)
 
